@@ -91,6 +91,26 @@ def eval_levels(args):
 _LV = {}
 
 
+# the keyref on a REPEATED element g, the key on its optional child h: every g has its own scope; a g without h has an empty table
+def nested_schema(ver, kind):
+    return _cls(ver)(f'''<xs:schema {XS}><xs:element name="r"><xs:complexType><xs:sequence><xs:element name="g" maxOccurs="unbounded"><xs:complexType><xs:sequence>
+ <xs:element name="h" minOccurs="0"><xs:complexType><xs:sequence><xs:element name="k" minOccurs="0" maxOccurs="unbounded"><xs:complexType><xs:attribute name="v" type="xs:integer"/></xs:complexType></xs:element></xs:sequence></xs:complexType>
+   <xs:{kind} name="K"><xs:selector xpath="k"/><xs:field xpath="@v"/></xs:{kind}></xs:element>
+ <xs:element name="f" minOccurs="0" maxOccurs="unbounded"><xs:complexType><xs:attribute name="v" type="xs:integer"/></xs:complexType></xs:element></xs:sequence></xs:complexType>
+ <xs:keyref name="R" refer="K"><xs:selector xpath="f"/><xs:field xpath="@v"/></xs:keyref></xs:element></xs:sequence></xs:complexType></xs:element></xs:schema>''')
+
+
+def eval_nested(args):
+    ver, kind, gs = args
+    s = _LV.get((ver, kind, 'n')) or _LV.setdefault((ver, kind, 'n'), nested_schema(ver, kind))
+    def el(tag, v): return f'<{tag}/>' if v is None else f'<{tag} v="{v}"/>'
+    doc = '<r>' + ''.join('<g>' + ('' if keys is None else '<h>' + ''.join(el('k', v) for v in keys) + '</h>') + ''.join(el('f', v) for v in refs) + '</g>' for keys, refs in gs) + '</r>'
+    ok = all(key_table_ok(kind, [(v,) for v in (keys or ())], [(v,) for v in refs]) for keys, refs in gs)
+    try: got = s.is_valid(doc)
+    except Exception as e: got = f'EXC {type(e).__name__}: {e}'
+    return None if got == ok else dict(doc=doc, ver=ver, kind=kind, got=got, exp=ok)
+
+
 def id_schema(ver):
     return _cls(ver)(f'''<xs:schema {XS}><xs:element name="r"><xs:complexType><xs:sequence>
  <xs:element name="a" minOccurs="0" maxOccurs="unbounded"><xs:complexType><xs:sequence><xs:element name="b" minOccurs="0" maxOccurs="unbounded"><xs:complexType>
@@ -143,6 +163,13 @@ def run(tier, seed, open_findings):
         lf.append(dict(case=dict(levels=True, ver=r['ver'], kind=r['kind'], doc=r['doc']), observed=dict(valid=r['got']), required=dict(valid=r['exp'])))
     out.append(result('C08.refer_across_levels', f'{len(ljobs)} documents: keyref on r referring to a key / unique declared on the repeated child g; 0-2 g elements with <= 2 rows, <= 2 references over {{absent, 1, 2}}',
                       len(ljobs), lf, exhaustive=lex, known=lknown, samples=[dict(doc='<r><g><k v="1"/></g><f v="1"/></r>')]))
+    one = [(keys, refs) for keys in [None, (), (1,), (2,), (1, 2)] for refs in [(), (1,), (2,), (None,), (1, 2)]]
+    njobs = [(ver, kind, gs) for ver in ('1.0', '1.1') for kind in ('key', 'unique') for ng in (1, 2) for gs in itertools.product(one, repeat=ng)]
+    njobs, nex = part(njobs, tier, seed, 3)
+    nres = pmap(eval_nested, njobs)
+    out.append(result('C08.keyref_scope_instances', f'{len(njobs)} documents: keyref on the repeated element g referring to a key / unique on its optional child h; 1-2 instances of g, each with its own (possibly absent) table',
+                      len(njobs), [dict(case=dict(nested=True, ver=r['ver'], kind=r['kind'], doc=r['doc']), observed=dict(valid=r['got']), required=dict(valid=r['exp'])) for r in nres if r],
+                      exhaustive=nex, samples=[dict(doc='<r><g><h><k v="1"/></h><f v="1"/></g><g><f v="1"/></g></r>')]))
     vals = [None, 'x', 'y']
     leaf = [('b', i, r, []) for i in vals for r in vals]
     nodes = [('a', i, r, list(k)) for i in vals for r in vals for nk in (0, 1) for k in itertools.product(leaf, repeat=nk)]
@@ -156,6 +183,15 @@ def run(tier, seed, open_findings):
 
 
 def replay(check_name, case):
+    if case.get('nested'):
+        import re
+        gs = []
+        for g in re.findall(r'<g>(.*?)</g>', case['doc']):
+            h = re.search(r'<h>(.*?)</h>', g)
+            keys = None if h is None else tuple(int(v) if v else None for v in re.findall(r'<k(?: v="(\d+)")?/>', h.group(1)))
+            refs = tuple(int(v) if v else None for v in re.findall(r'<f(?: v="(\d+)")?/>', g))
+            gs.append((keys, refs))
+        r = eval_nested((case['ver'], case['kind'], tuple(gs))); return dict(ok=r is None, observed=r, required='every instance of g against its own table')
     if case.get('levels'):
         import re
         groups = [tuple(int(v) if v else None for v in re.findall(r'<k(?: v="(\d+)")?/>', g)) for g in re.findall(r'<g>(.*?)</g>', case['doc'])]
